@@ -10,7 +10,7 @@ Functions under contract (real source of jinja2/loaders.py):
   PrefixLoader.get_loader/get_source/load
 plus the lexical containment lemma (string VCs by induction on the number of pieces) about the dependency
 spec of posixpath.join, and bounded stand-ins that compare the dependency specs (str.split, posixpath.join,
-normpath) with the real library functions.
+normpath) with the real library functions and run the real loaders on a sandbox directory tree.
 
 File-system model (assumption FS-STABLE): during ONE call of get_source the file system does not change:
 os.path.isfile / os.path.getmtime are functions of the path, open() of a path for which isfile() held succeeds.
@@ -20,16 +20,17 @@ from __future__ import annotations
 
 import ast
 import itertools
+import ntpath
 import os
 import posixpath
-import types
+import time
 
 import z3
 
-from pyvc.contract import VC, Res, FnTask, Outcome
+from pyvc.contract import VC, Res, FnTask
 from pyvc.values import (State, Sym, Ref, HObj, HList, HDict, HIter, SSeq, Obj, Exc, Closure, BoundMethod, Event,
-                         fresh_name, fresh, sym)
-from pyvc.smt import to_term, model_value, host_const, str2obj, check_sat
+                         Unsupported, fresh_name, fresh, sym)
+from pyvc.smt import to_term, model_value, host_const, str2obj, check_sat, cvc5_check
 from pyvc.stmts import LoopSpec
 from pyvc.interp import Raised
 from pyvc import abstract as A
@@ -40,9 +41,12 @@ from jinja2.exceptions import TemplateNotFound, TemplatesNotFound
 
 I_ = z3.IntSort()
 S_ = z3.StringSort()
+B_ = z3.BoolSort()
 SArr = z3.ArraySort(I_, S_)
+OArr = z3.ArraySort(I_, Obj)
 
 PLATFORMS = {"posix": ("/", None), "nt": ("\\", "/")}
+PATHMOD = {"posix": posixpath, "nt": ntpath}
 PARDIR = ".."
 
 
@@ -50,9 +54,23 @@ def SV(s):
     return z3.StringVal(s)
 
 
+class OtherError(Exception):
+    """some exception that is not a TemplateNotFound (abstract callees raise it)"""
+
+
 # ----------------------------------------------------------------------------------------------
 # helpers shared with contracts/c25.py
 # ----------------------------------------------------------------------------------------------
+
+SIDE = "side-obligation"
+
+
+class LVC(VC):
+    """VC whose side obligations (loop invariants) also get a witness from the counter-model."""
+
+    def discharge(self, name, pc, cond, timeout, seed, pre, out):
+        return super().discharge(name, pc, cond, timeout, seed, SIDE if pre is None else pre, out)
+
 
 def z3str(model, term):
     """python str of a z3 string term in a model (decodes \\u{..} escapes)."""
@@ -69,14 +87,15 @@ def z3str(model, term):
 
 
 def platform_attr_hook(platform):
-    """os.sep / os.path.sep / os.path.altsep / os.path.pardir as on the given platform."""
+    """os.sep / os.path (-> ntpath on "nt") / os.path.altsep / os.path.pardir as on the given platform."""
     sep, altsep = PLATFORMS[platform]
+    consts = {"sep": sep, "altsep": altsep, "pardir": "..", "curdir": "."}
 
     def hook(I, st, obj, name, node):
-        if obj is os and name in ("sep", "altsep", "pardir", "curdir"):
-            return [(st, {"sep": sep, "altsep": altsep, "pardir": "..", "curdir": "."}[name])]
-        if obj is os.path and name in ("sep", "altsep", "pardir", "curdir"):
-            return [(st, {"sep": sep, "altsep": altsep, "pardir": "..", "curdir": "."}[name])]
+        if obj is os and name in consts:
+            return [(st, consts[name])]
+        if obj is os and name == "path":
+            return [(st, PATHMOD[platform])]
         return None
 
     return hook
@@ -132,12 +151,151 @@ def list_str_terms(st, ref):
     return h.arr, h.n
 
 
-def tnf_named(out, name_val):
-    """the outcome is `raise TemplateNotFound(<name_val>, ...)` (exactly that class)"""
+def loop_assigned(target, ordinal=0, kind="str"):
+    """havoc set of loop #ordinal of a real function, read off its AST (so that renaming a local is harmless)"""
+    from pyvc import extract
+    node, _ = extract.function_ast(extract.resolve(target))
+    loops = [n for n in ast.walk(node) if isinstance(n, (ast.For, ast.While, ast.AsyncFor))]
+    loop = loops[ordinal]
+    names = {x.id for x in ast.walk(loop) if isinstance(x, ast.Name) and isinstance(x.ctx, ast.Store)}
+    if hasattr(loop, "target"):
+        names -= {x.id for x in ast.walk(loop.target) if isinstance(x, ast.Name)}
+    return {n: kind for n in sorted(names)}
+
+
+def list_locals(st, frame_locals):
+    """the locals of a frame that are bound to a list"""
+    return [v for v in frame_locals.values() if isinstance(v, Ref) and isinstance(st.get(v), HList) and st.get(v).tag == "list"]
+
+
+def tnf_named(out, name_val, own=True):
+    """the outcome is `raise TemplateNotFound(<name_val>, ...)` (exactly that class), raised by the
+    function under contract itself (not an exception of an abstract callee passing through)"""
     if not out.raised or out.value.cls is not TemplateNotFound:
+        return False
+    if own and getattr(out.value, "from_call", None):
         return False
     a = out.value.args
     return len(a) >= 1 and a[0] is name_val
+
+
+def install_unexpected(I):
+    """calls of anything without a spec are recorded as `unexpected:<name>` events (a postcondition
+    rejects them) instead of making the obligation undecided"""
+
+    def unknown(I_, st, fn, args, kwargs, node):
+        nm = getattr(fn, "__qualname__", None) or getattr(fn, "__name__", None) or repr(fn)
+        if isinstance(fn, BoundMethod):
+            nm = f"{fn.recv!r}.{fn.name}"
+        mod = getattr(fn, "__module__", "") or ""
+        st.trace.append(Event("call", f"unexpected:{mod}.{nm}", args, kwargs, None, lineno=getattr(node, "lineno", None)))
+        return [(st, fresh("unexpected", "obj"))]
+
+    I.on_unknown_call = unknown
+
+
+def unexpected(out):
+    return [e for e in out.st.trace if e.kind == "call" and e.name.startswith("unexpected:")]
+
+
+def install_opaque(I, methods=None, attrs=None):
+    """opaque (`obj`-kind) values: `methods` name -> handler(I, st, recv, args, kwargs, node);
+    `attrs` name -> handler(I, st, recv, node) -> results"""
+    methods = methods or {}
+    attrs = attrs or {}
+
+    def getattr_obj(I_, st, args, kwargs, node):
+        o, name = args
+        if name in methods:
+            return [(st, BoundMethod(o, name))]
+        if name in attrs:
+            return attrs[name](I_, st, o, node)
+        return None
+
+    def method_obj(I_, st, args, kwargs, node):
+        recv, name = args[0], args[1]
+        if name in methods:
+            return methods[name](I_, st, recv, list(args[2:]), kwargs, node)
+        return None
+
+    I.specs["getattr_obj"] = getattr_obj
+    I.specs["method_obj"] = method_obj
+
+
+# ---- abstract loaders (callees of the choice / prefix loaders and of the environment) -------------
+OUT_RETURN, OUT_TNF, OUT_TNFS, OUT_OTHER, OUT_UNDEF = 0, 1, 2, 3, 4
+OUT_CLASSES = {OUT_TNF: TemplateNotFound, OUT_TNFS: TemplatesNotFound, OUT_OTHER: OtherError, OUT_UNDEF: jinja2.exceptions.UndefinedError}
+
+
+def callee_model(fname):
+    """outcome / result of `<obj>.<fname>(...)` as functions of the receiver and the name argument:
+    the callee is deterministic during one call of the function under contract."""
+    oc = z3.Function(f"outcome:{fname}", Obj, Obj, I_)
+    res = z3.Function(f"result:{fname}", Obj, Obj, Obj)
+    return oc, res
+
+
+def name_atom(v):
+    """template names as abstract atoms (Obj): only equality matters"""
+    return to_term(v, "obj")
+
+
+def abstract_loader_method(fname, oc, res, outcomes=(OUT_RETURN, OUT_TNF, OUT_TNFS, OUT_OTHER), name_index=1):
+    """handler(I, st, recv, args, kwargs, node) of an abstract `get_source` / `load` / `_load_template`"""
+
+    def handler(I, st, recv, args, kwargs, node):
+        out = []
+        r_t = to_term(recv, "obj")
+        n_t = name_atom(args[name_index])
+        for v in outcomes:
+            s = st.fork()
+            s.assume(oc(r_t, n_t) == v)
+            if v == OUT_RETURN:
+                val = Sym(res(r_t, n_t), "obj")
+                A.call_event(s, fname, [recv] + list(args), kwargs, val, node)
+                out.append((s, val))
+            else:
+                e = Exc(OUT_CLASSES[v], (), tag=f"{fname}#{len(s.trace)}", origin=getattr(node, "lineno", None))
+                e.from_call = fname
+                A.call_event(s, fname, [recv] + list(args), kwargs, e, node)
+                out.append((s, Raised(e)))
+        return out
+
+    return handler
+
+
+def is_tnf_family(oc_term):
+    return z3.Or(oc_term == OUT_TNF, oc_term == OUT_TNFS)
+
+
+class FakeLoader(jinja2.BaseLoader):
+    """native replay: a loader with a prescribed outcome"""
+
+    def __init__(self, ident, outcome):
+        self.ident, self.outcome, self.calls = ident, outcome, []
+
+    def _do(self, what, name, *rest):
+        self.calls.append((what, name) + rest)
+        if self.outcome == OUT_RETURN:
+            return ("result", self.ident, what, name)
+        if self.outcome == OUT_TNF:
+            raise TemplateNotFound("inner:" + str(name))
+        if self.outcome == OUT_TNFS:
+            raise TemplatesNotFound(["inner:" + str(name)])
+        raise OtherError(self.ident)
+
+    def get_source(self, environment, template):
+        return self._do("get_source", template, environment)
+
+    def load(self, environment, name, globals=None):
+        return self._do("load", name, environment, globals)
+
+
+def run_native(f):
+    try:
+        return ("ok", f())
+    except Exception as ex:  # noqa
+        return ("raise", type(ex).__name__, getattr(ex, "name", None) if isinstance(ex, TemplateNotFound) else str(ex))
 
 
 # ----------------------------------------------------------------------------------------------
@@ -168,7 +326,7 @@ def piece_good(x, platform):
     return z3.And(*c)
 
 
-class Split(VC):
+class Split(LVC):
     """split_template_path(template), all strings.
 
     dependency spec str.split("/"): a sequence S[0..N) with N >= 1, no element contains "/", and
@@ -188,30 +346,33 @@ class Split(VC):
 
     def configure(self, I):
         I.attr_hook = platform_attr_hook(self.platform)
+        install_unexpected(I)
         c = self
 
         def split(I_, st, args, kwargs, node):
-            recv, sepv = args[0], args[1]
-            if recv is not c.template or sepv != "/" or len(args) != 2:
-                from pyvc.values import Unsupported
-                raise Unsupported("str.split outside the dependency spec of C28.split", node)
+            recv, sepv = args[0], args[1] if len(args) > 1 else None
+            if recv is not c.template or sepv != "/" or len(args) != 2 or kwargs:
+                st.trace.append(Event("call", "unexpected:str.split", args, kwargs, None, lineno=getattr(node, "lineno", None)))
+                return [(st, st.alloc(HList(arr=z3.Const(fresh_name("xs"), SArr), n=z3.Int(fresh_name("xn")), k="str")))]
             return [(st, st.alloc(HList(arr=c.S, n=c.N, k="str")))]
 
         I.specs["str.split"] = split
 
         def inv(ctx):
             st, k = ctx.st, ctx.k
-            P, m = list_str_terms(st, ctx.local("pieces"))
+            (pieces,) = list_locals(st, st.frames[ctx.fr.fid])  # the one list built by the function
+            P, m = list_str_terms(st, pieces)
             return c.inv_terms(P, m, k)
 
         def heap(st, local):
-            h = st.get(local["pieces"])
+            (pieces,) = list_locals(st, local)
+            h = st.get(pieces)
             h.items = None
             h.arr = z3.Const(fresh_name("pieces_arr"), SArr)
             h.n = z3.Int(fresh_name("pieces_n"))
             h.k = "str"
 
-        I.loops[("split_template_path", 0)] = LoopSpec(inv, havoc={}, heap=heap, name="segments_loop")
+        I.loops[("split_template_path", 0)] = LoopSpec(inv, havoc=loop_assigned(self.target), heap=heap, name="segments_loop")
 
     def inv_terms(self, P, m, k):
         S, cnt, pf = self.S, self.cnt, self.platform
@@ -285,24 +446,31 @@ def split_oracle(template, platform):
 
 
 class patched_platform:
-    """run real code under the os.sep / os.path.altsep of the given platform"""
+    """run real code under the os.sep / os.path of the given platform"""
 
     def __init__(self, platform):
         self.platform = platform
 
     def __enter__(self):
         sep, altsep = PLATFORMS[self.platform]
-        self.saved = (os.sep, os.path.sep, os.path.altsep)
-        os.sep = sep
-        os.path.sep = sep
-        os.path.altsep = altsep
+        self.saved = (os.sep, os.altsep, os.path)
+        os.sep, os.altsep, os.path = sep, altsep, PATHMOD[self.platform]
+        return self
 
     def __exit__(self, *a):
-        os.sep, os.path.sep, os.path.altsep = self.saved
+        os.sep, os.altsep, os.path = self.saved
 
 
-def replay_split(w):
-    template, platform = w["template"], w.get("platform", "posix")
+SPLIT_FRAGMENTS = ["..", ".", "", "a", "b.html", "\\", "a\\..", "..\\a", "C:", "...", " ..", "é"]
+
+
+def small_templates(max_segments):
+    for n in range(1, max_segments + 1):
+        for segs in itertools.product(SPLIT_FRAGMENTS, repeat=n):
+            yield "/".join(segs)
+
+
+def replay_split_one(template, platform):
     want = split_oracle(template, platform)
     with patched_platform(platform):
         try:
@@ -314,11 +482,1202 @@ def replay_split(w):
     return (got != want, f"split_template_path({template!r}) on {platform}: real={got!r} spec={want!r}")
 
 
-TASKS = [Split("posix"), Split("nt")]
+def replay_split(w):
+    platform = w.get("platform", "posix")
+    v, d = replay_split_one(w["template"], platform)
+    if v:
+        return v, d
+    # the counter-model of an invariant need not be reachable: search the neighbourhood for a real failing input
+    for t in small_templates(2):
+        v2, d2 = replay_split_one(t, platform)
+        if v2:
+            return v2, d2 + " (found near the verifier's counter-model)"
+    return v, d
+
+
+# ----------------------------------------------------------------------------------------------
+# file system model and FileSystemLoader.get_source / PackageLoader.get_source
+# ----------------------------------------------------------------------------------------------
+
+fs_isfile = z3.Function("fs.isfile", S_, B_)
+fs_mtime = z3.Function("fs.mtime", S_, Obj)
+fs_text = z3.Function("fs.read_text", S_, S_, S_)   # (path, encoding) -> str
+fs_bytes = z3.Function("fs.read_bytes", S_, Obj)
+pjoin = z3.Function("posixpath.join", S_, SArr, I_, S_)
+njoin = z3.Function("ntpath.join", S_, SArr, I_, S_)
+normpath_fn = {"posix": z3.Function("posixpath.normpath", S_, S_), "nt": z3.Function("ntpath.normpath", S_, S_)}
+bytes_decode = z3.Function("bytes.decode", Obj, S_, S_)
+
+
+def comps_of(args, node):
+    """(arr, n) of the components passed to a join"""
+    comps = args[1:]
+    if len(comps) == 1 and isinstance(comps[0], StarSeq):
+        return comps[0].seq.arr, comps[0].seq.n
+    arr = z3.K(I_, SV(""))
+    for i, x in enumerate(comps):
+        if isinstance(x, StarSeq):
+            raise Unsupported("join(a, x, *ys)", node)
+        arr = z3.Store(arr, i, to_term(x, "str"))
+    return arr, z3.IntVal(len(comps))
+
+
+class FSModel:
+    """dependency specs of os.path.isfile/getmtime/normpath, posixpath.join, open/read: abstract callees
+    that record events.  `handles` maps a file handle to (path, mode, encoding)."""
+
+    def __init__(self, platform):
+        self.platform = platform
+        self.handles = {}
+
+    def install(self, I):
+        install_star_hook(I)
+        install_unexpected(I)
+        I.attr_hook = platform_attr_hook(self.platform)
+        m = self
+
+        def reg(fn, h):
+            I.specs[("fn", id(fn))] = h
+
+        def join_spec(fnsym, name):
+            def h(I_, st, args, kwargs, node):
+                arr, n = comps_of(args, node)
+                r = Sym(fnsym(to_term(args[0], "str"), arr, n), "str")
+                st.assume(z3.Implies(n == 0, r.t == to_term(args[0], "str")))
+                A.call_event(st, name, args, kwargs, r, node)
+                return [(st, r)]
+            return h
+
+        reg(posixpath.join, join_spec(pjoin, "posixpath.join"))
+        reg(ntpath.join, join_spec(njoin, "ntpath.join"))
+
+        def isfile(I_, st, args, kwargs, node):
+            r = Sym(fs_isfile(to_term(args[0], "str")), "bool")
+            A.call_event(st, "os.path.isfile", args, kwargs, r, node)
+            return [(st, r)]
+
+        reg(posixpath.isfile, isfile)
+        reg(ntpath.isfile, isfile)
+
+        def getmtime(I_, st, args, kwargs, node):
+            return m.getmtime(I_, st, args, kwargs, node)
+
+        reg(posixpath.getmtime, getmtime)
+        reg(ntpath.getmtime, getmtime)
+
+        def normpath(pf):
+            def h(I_, st, args, kwargs, node):
+                r = Sym(normpath_fn[pf](to_term(args[0], "str")), "str")
+                A.call_event(st, "os.path.normpath", args, kwargs, r, node)
+                return [(st, r)]
+            return h
+
+        reg(posixpath.normpath, normpath("posix"))
+        reg(ntpath.normpath, normpath("nt"))
+
+        def open_(I_, st, args, kwargs, node):
+            h = fresh("file", "obj", tags=("file",))
+            mode = args[1] if len(args) > 1 else kwargs.get("mode", "r")
+            m.handles[str(h.t)] = (args[0], mode, kwargs.get("encoding"))
+            A.call_event(st, "open", args, kwargs, h, node)
+            return [(st, h)]
+
+        reg(open, open_)
+
+        def cm_enter(I_, st, cm, node):
+            if isinstance(cm, Sym) and "file" in cm.tags:
+                st.trace.append(Event("call", "file.__enter__", [cm], lineno=getattr(node, "lineno", None)))
+                return [(st, cm)]
+            return None
+
+        def cm_exit(I_, st, cm, ctl, node):
+            if isinstance(cm, Sym) and "file" in cm.tags:
+                st.trace.append(Event("call", "file.close", [cm], lineno=getattr(node, "lineno", None)))
+                return [(st, ctl)]
+            return None
+
+        I.specs["cm_enter"] = cm_enter
+        I.specs["cm_exit"] = cm_exit
+
+        def read(I_, st, recv, args, kwargs, node):
+            if "file" not in recv.tags or args or kwargs:
+                return None
+            path, mode, enc = m.handles[str(recv.t)]
+            if mode == "rb":
+                r = Sym(fs_bytes(to_term(path, "str")), "obj", tags=("bytes",))
+            elif mode == "r" and enc is not None:
+                r = Sym(fs_text(to_term(path, "str"), to_term(enc, "str")), "str")
+            else:
+                r = fresh("read", "obj")
+            A.call_event(st, "file.read", [recv], kwargs, r, node)
+            return [(st, r)]
+
+        def decode(I_, st, recv, args, kwargs, node):
+            r = Sym(bytes_decode(recv.t, to_term(args[0], "str")), "str")
+            A.call_event(st, "bytes.decode", [recv] + list(args), kwargs, r, node)
+            return [(st, r)]
+
+        def get_data(I_, st, recv, args, kwargs, node):
+            return m.get_data(I_, st, recv, args, kwargs, node)
+
+        install_opaque(I, methods={"read": read, "decode": decode, "get_data": get_data})
+
+        def str_join(I_, st, args, kwargs, node):
+            return [(st, fresh("joined", "str"))]
+
+        I.specs["str.join"] = str_join
+
+    # FS-STABLE: inside get_source the mtime of an existing file is a function of the path
+    def getmtime(self, I, st, args, kwargs, node):
+        r = Sym(fs_mtime(to_term(args[0], "str")), "obj")
+        A.call_event(st, "os.path.getmtime", args, kwargs, r, node)
+        return [(st, r)]
+
+    zip_has = z3.Function("zip.has", S_, B_)
+    zip_data = z3.Function("zip.get_data", S_, Obj)
+
+    def get_data(self, I, st, recv, args, kwargs, node):
+        p = to_term(args[0], "str")
+        out = []
+        for s, b in I.fork_bool(st, self.zip_has(p)):
+            if b:
+                r = Sym(self.zip_data(p), "obj", tags=("bytes",))
+                A.call_event(s, "zip.get_data", [recv] + list(args), kwargs, r, node)
+                out.append((s, r))
+            else:
+                e = Exc(OSError, (), tag="get_data", origin=getattr(node, "lineno", None))
+                e.from_call = "zip.get_data"
+                A.call_event(s, "zip.get_data", [recv] + list(args), kwargs, e, node)
+                out.append((s, Raised(e)))
+        return out
+
+
+def split_spec(c):
+    """the proved contract of split_template_path (C28.split) used as callee spec: raises
+    TemplateNotFound(template) or returns a fresh list of good pieces."""
+
+    def h(I, st, args, kwargs, node):
+        s1 = st.fork()
+        e = Exc(TemplateNotFound, (args[0],), tag="split", origin=getattr(node, "lineno", None))
+        A.call_event(s1, "split_template_path", args, kwargs, e, node)
+        i = z3.Int(fresh_name("i"))
+        st.assume(c.Pn >= 0, z3.ForAll([i], z3.Implies(z3.And(0 <= i, i < c.Pn), piece_good(z3.Select(c.P, i), c.platform))))
+        r = st.alloc(HList(arr=c.P, n=c.Pn, k="str"))
+        A.call_event(st, "split_template_path", args, kwargs, r, node)
+        return [(s1, Raised(e)), (st, r)]
+
+    return h
+
+
+def split_outcome(out):
+    """None (not called exactly once) | 'raised' | 'returned'"""
+    ev = A.calls(out, "split_template_path")
+    if len(ev) != 1:
+        return None
+    return "raised" if isinstance(ev[0].result, Exc) else "returned"
+
+
+class FSGetSource(LVC):
+    """FileSystemLoader.get_source for any list of search paths (loop invariant: none of the search
+    paths tried so far has the file)."""
+    prop = "C28"
+    target = "jinja2.loaders:FileSystemLoader.get_source"
+    timeout_quick = 20000
+
+    def __init__(self, platform, name=None):
+        self.platform = platform
+        super().__init__("C28", name or f"C28.fs[{platform}]")
+
+    def configure(self, I):
+        self.fs = FSModel(self.platform)
+        self.fs.install(I)
+        I.specs["jinja2.loaders:split_template_path"] = split_spec(self)
+        c = self
+
+        def inv(ctx):
+            return [c.none_before(ctx.k)]
+
+        I.loops[("FileSystemLoader.get_source", 0)] = LoopSpec(inv, havoc=loop_assigned(self.target), name="searchpath_loop")
+
+    def cand(self, i):
+        return pjoin(z3.Select(self.SP, i), self.P, self.Pn)
+
+    def none_before(self, k):
+        j = z3.Int(fresh_name("j"))
+        return z3.ForAll([j], z3.Implies(z3.And(0 <= j, j < k), z3.Not(fs_isfile(self.cand(j)))))
+
+    def setup(self, I, st):
+        self.SP = z3.Const("searchpath", SArr)
+        self.SPn = z3.Int("n_searchpath")
+        self.P = z3.Const("pieces", SArr)
+        self.Pn = z3.Int("n_pieces")
+        st.assume(self.SPn >= 0)
+        i = z3.Int("spi")
+        # the search paths are directories (not regular files)
+        st.assume(z3.ForAll([i], z3.Implies(z3.And(0 <= i, i < self.SPn), z3.Not(fs_isfile(z3.Select(self.SP, i))))))
+        self.sp_list = st.alloc(HList(arr=self.SP, n=self.SPn, k="str"), initial=True)
+        self.encoding = sym("encoding", "str")
+        self.obj = A.obj(st, L.FileSystemLoader, "self", fields={"searchpath": self.sp_list, "encoding": self.encoding,
+                                                                 "followlinks": sym("followlinks", "bool")})
+        self.env = sym("environment", "obj")
+        self.template = sym("template", "str")
+        return [self.obj, self.env, self.template], {}
+
+    # ---- postconditions ---------------------------------------------------------------------
+    def first_hit(self, T):
+        i = z3.Int(fresh_name("i"))
+        return z3.Exists([i], z3.And(0 <= i, i < self.SPn, T == self.cand(i), fs_isfile(T), self.none_before(i)))
+
+    def p_opened(self, pre, out):
+        """the only open() is of posixpath.join(searchpath_i, *pieces) for the first i that has the file"""
+        opens = A.calls(out, "open")
+        if out.raised:
+            return len(opens) == 0
+        if len(opens) != 1:
+            return False
+        ev = opens[0]
+        if len(ev.args) != 1 or set(ev.kwargs) != {"encoding"} or ev.kwargs["encoding"] is not self.encoding:
+            return False
+        return self.first_hit(to_term(ev.args[0], "str"))
+
+    def p_notfound(self, pre, out):
+        """TemplateNotFound(template) iff the name is rejected or no search path has the file"""
+        so = split_outcome(out)
+        if so is None or A.calls(out, "split_template_path")[0].args[0] is not self.template:
+            return False
+        none = self.none_before(self.SPn)
+        if out.raised:
+            if not tnf_named(out, self.template):
+                return False
+            return True if so == "raised" else none
+        if so == "raised":
+            return False
+        return z3.Not(none)
+
+    def p_result(self, pre, out):
+        """(contents of that file, normpath(path), uptodate closure)"""
+        if out.raised:
+            return None
+        v = out.value
+        opens, reads = A.calls(out, "open"), A.calls(out, "file.read")
+        if not (isinstance(v, tuple) and len(v) == 3 and len(opens) == 1 and len(reads) == 1 and isinstance(v[2], Closure)):
+            return False
+        if reads[0].args[0] is not opens[0].result or v[0] is not reads[0].result:
+            return False
+        names = [e.name for e in out.st.trace if e.kind == "call" and e.name.startswith("file.")]
+        if names != ["file.__enter__", "file.read", "file.close"]:
+            return False
+        T = to_term(opens[0].args[0], "str")
+        return z3.And(to_term(v[1], "str") == normpath_fn[self.platform](T),
+                      to_term(v[0], "str") == fs_text(T, self.encoding.t))
+
+    def p_fs_access(self, pre, out):
+        """every file-system access is on a candidate path posixpath.join(searchpath_i, *pieces); nothing else is called"""
+        if unexpected(out) or A.calls(out, "ntpath.join"):
+            return False
+        conj = []
+        for e in out.st.trace:
+            if e.kind == "call" and e.name in ("os.path.isfile", "os.path.getmtime", "open"):
+                i = z3.Int(fresh_name("i"))
+                conj.append(z3.Exists([i], z3.And(0 <= i, i < self.SPn, to_term(e.args[0], "str") == self.cand(i))))
+            if e.kind == "call" and e.name == "posixpath.join":
+                arr, n = comps_of(e.args, None)
+                i = z3.Int(fresh_name("i"))
+                conj.append(z3.And(n == self.Pn, z3.ForAll([i], z3.Implies(z3.And(0 <= i, i < n), z3.Select(arr, i) == z3.Select(self.P, i)))))
+        return z3.And(*conj) if conj else True
+
+    def p_nonempty(self, pre, out):
+        """a file is only read for a name with at least one piece (the search directory itself is never opened)"""
+        if out.raised:
+            return None
+        return self.Pn > 0
+
+    posts = [("opens_first_match_only", p_opened), ("not_found_iff_none", p_notfound), ("result", p_result),
+             ("fs_access_confined", p_fs_access), ("reads_below_search_path", p_nonempty)]
+
+    # ---- witness / replay -------------------------------------------------------------------
+    def concretize(self, model, pre, out):
+        n = max(0, min(4, model_value(model, self.SPn)))
+        pn = max(0, min(4, model_value(model, self.Pn)))
+        sps = [z3str(model, z3.Select(self.SP, i)) for i in range(n)]
+        pieces = [z3str(model, z3.Select(self.P, i)) for i in range(pn)]
+        rejected = out is not None and split_outcome(out) == "raised"
+        files = []
+        for i in range(n):
+            if model_value(model, fs_isfile(self.cand(z3.IntVal(i)))) is True:
+                files.append(posixpath.join(sps[i], *pieces))
+        return {"loader": "fs", "platform": self.platform, "searchpaths": sps,
+                "template": "../x" if rejected else "/".join(pieces), "files": files}
+
+    def replay(self, w):
+        return replay_fs(w)
+
+
+class fake_fs:
+    """native replay: isfile / getmtime / open as seen from jinja2.loaders answer from a fake file table and
+    record what the loader touches"""
+
+    def __init__(self, platform, files, mtime=1.0):
+        self.platform, self.files, self.log, self.mtime = platform, set(files), [], mtime
+
+    def __enter__(self):
+        import io
+        import sys
+        self.pp = patched_platform(self.platform)
+        self.pp.__enter__()
+        mod = os.path
+        self.mod = mod
+        self.saved = (mod.isfile, mod.getmtime)
+        real_isfile, real_getmtime = self.saved
+        me = self
+
+        def from_loader():
+            f = sys._getframe(2)
+            return f.f_globals.get("__name__") == "jinja2.loaders"
+
+        def isfile(p):
+            if not from_loader():
+                return real_isfile(p)
+            me.log.append(("isfile", p))
+            return p in me.files
+
+        def getmtime(p):
+            if not from_loader():
+                return real_getmtime(p)
+            me.log.append(("getmtime", p))
+            if p not in me.files:
+                raise FileNotFoundError(p)
+            return me.mtime
+
+        def open_(p, mode="r", **kw):
+            me.log.append(("open", p))
+            if p not in me.files:
+                raise FileNotFoundError(p)
+            data = "content of " + p
+            return io.BytesIO(data.encode("utf-8")) if "b" in mode else io.StringIO(data)
+
+        mod.isfile, mod.getmtime = isfile, getmtime
+        L.open = open_
+        return self
+
+    def __exit__(self, *a):
+        self.mod.isfile, self.mod.getmtime = self.saved
+        del L.open
+        self.pp.__exit__()
+
+
+def inside(platform, base, path):
+    """lexical containment of `path` in directory `base` by the platform's own path rules (normpath of the
+    platform resolves '..' components and converts the alternative separator)"""
+    M = PATHMOD[platform]
+    nb, np_ = M.normpath(base), M.normpath(path)
+    if nb == ".":
+        first = np_.split(M.sep)[0]
+        return not M.isabs(np_) and not M.splitdrive(np_)[0] and first not in ("..", ".", "")
+    pref = nb if nb.endswith(M.sep) else nb + M.sep
+    if not np_.startswith(pref):
+        return False
+    rest = np_[len(pref):]
+    return rest != "" and all(c not in ("..", ".", "") for c in rest.split(M.sep))
+
+
+def replay_fs_one(w):
+    platform, sps, template, files = w.get("platform", "posix"), list(w["searchpaths"]), w["template"], list(w["files"])
+    if any(sp in files for sp in sps):
+        return (False, "witness makes a search path a regular file (outside the precondition)")
+    want_pieces = split_oracle(template, platform)
+    if want_pieces is TemplateNotFound:
+        want, want_open = ("raise", "TemplateNotFound", template), []
+    else:
+        cands = [posixpath.join(sp, *want_pieces) for sp in sps]
+        hit = next((c for c in cands if c in files), None)
+        if hit is None:
+            want, want_open = ("raise", "TemplateNotFound", template), []
+        else:
+            want, want_open = ("ok", "content of " + hit), [hit]
+    loader = object.__new__(L.FileSystemLoader)
+    loader.searchpath, loader.encoding, loader.followlinks = sps, "utf-8", False
+    with fake_fs(platform, files) as fs:
+        got = run_native(lambda: loader.get_source(None, template))
+        expect_fn = os.path.normpath(want_open[0]) if want_open else None
+    fn_ok = True
+    if got[0] == "ok":
+        fn_ok = got[1][1] == expect_fn and callable(got[1][2])
+        got = ("ok", got[1][0])
+    opened = [p for k, p in fs.log if k == "open"]
+    touched = [p for k, p in fs.log]
+    contained = all(any(inside(platform, sp, p) for sp in sps) for p in opened)
+    cand_ok = want_pieces is TemplateNotFound and not touched or want_pieces is not TemplateNotFound and all(
+        p in [posixpath.join(sp, *want_pieces) for sp in sps] for p in touched)
+    bad = got != want or opened != want_open or not contained or not cand_ok or not fn_ok
+    return (bad, f"FileSystemLoader({sps!r}).get_source({template!r}) on {platform}, files={files!r}: real={got!r} opened={opened!r} "
+                 f"touched={touched!r}; spec={want!r} opens={want_open!r}; lexically contained={contained}")
+
+
+FS_FAMILY = ["a", "sub/a", "C:x", "C:", "sub/C:x", "a/./b", "//a", "..", "sub/../a", "\\a", "a\\..\\b", ""]
+
+
+def replay_fs(w):
+    v, d = replay_fs_one(w)
+    if v or v is None:
+        return v, d
+    # the counter-model of an abstract callee / invariant need not be a failing input: try a small family nearby
+    platform = w.get("platform", "posix")
+    for sps in (["/srv/t1", "/srv/t2"], ["t1", "D:\\t2"], ["/srv/t1/"]):
+        for t in FS_FAMILY:
+            pieces = split_oracle(t, platform)
+            for which in (None, 0, -1):
+                files = []
+                if which is not None and pieces is not TemplateNotFound and pieces:
+                    files = [posixpath.join(sps[which], *pieces)]
+                v2, d2 = replay_fs_one({"platform": platform, "searchpaths": sps, "template": t, "files": files})
+                if v2:
+                    return v2, d2 + " (found near the verifier's counter-model)"
+    return v, d
+
+
+class PkgGetSource(LVC):
+    """PackageLoader.get_source: directory package (isfile/open on p) and zip package (loader.get_data(p)),
+    p = normpath(posixpath.join(_template_root, *pieces))."""
+    prop = "C28"
+    target = "jinja2.loaders:PackageLoader.get_source"
+    timeout_quick = 20000
+
+    def __init__(self, platform, archive, name=None):
+        self.platform, self.archive = platform, archive
+        super().__init__("C28", name or f"C28.package[{platform},{'zip' if archive else 'dir'}]")
+
+    def configure(self, I):
+        self.fs = FSModel(self.platform)
+        self.fs.install(I)
+        I.specs["jinja2.loaders:split_template_path"] = split_spec(self)
+
+    def setup(self, I, st):
+        self.P = z3.Const("pieces", SArr)
+        self.Pn = z3.Int("n_pieces")
+        self.root = sym("template_root", "str")
+        self.encoding = sym("encoding", "str")
+        self.zloader = sym("zip_loader", "obj")
+        self.obj = A.obj(st, L.PackageLoader, "self", fields={
+            "_template_root": self.root, "_archive": "/pkg.zip" if self.archive else None, "_loader": self.zloader,
+            "encoding": self.encoding, "package_name": sym("package_name", "str"), "package_path": sym("package_path", "str")})
+        self.env = sym("environment", "obj")
+        self.template = sym("template", "str")
+        self.p = normpath_fn[self.platform](pjoin(self.root.t, self.P, self.Pn))
+        return [self.obj, self.env, self.template], {}
+
+    def has(self):
+        return self.fs.zip_has(self.p) if self.archive else fs_isfile(self.p)
+
+    def p_access(self, pre, out):
+        """the only path read is p = normpath(posixpath.join(_template_root, *pieces))"""
+        if unexpected(out) or A.calls(out, "ntpath.join"):
+            return False
+        so = split_outcome(out)
+        if so is None or A.calls(out, "split_template_path")[0].args[0] is not self.template:
+            return False
+        conj = []
+        kinds = ("zip.get_data",) if self.archive else ("os.path.isfile", "os.path.getmtime", "open")
+        for e in out.st.trace:
+            if e.kind != "call":
+                continue
+            if e.name in ("os.path.isfile", "os.path.getmtime", "open", "zip.get_data"):
+                if e.name not in kinds:
+                    return False
+                a = e.args[1] if e.name == "zip.get_data" else e.args[0]
+                conj.append(to_term(a, "str") == self.p)
+        opens = A.calls(out, "open") + A.calls(out, "zip.get_data")
+        if so == "raised" or (out.raised and not self.archive):
+            return (z3.And(*conj) if conj else True) if len(opens) == 0 else False
+        if len(opens) != 1:
+            return False
+        if not self.archive:
+            ev = opens[0]
+            if not (len(ev.args) == 2 and ev.args[1] == "rb" and not ev.kwargs):
+                return False
+            if out.returned and [e.name for e in out.st.trace if e.kind == "call" and e.name.startswith("file.")] != ["file.__enter__", "file.read", "file.close"]:
+                return False
+        else:
+            if opens[0].args[0] is not self.zloader:
+                return False
+        return z3.And(*conj) if conj else True
+
+    def p_notfound(self, pre, out):
+        so = split_outcome(out)
+        if so is None:
+            return False
+        if out.raised:
+            if not tnf_named(out, self.template):
+                return False
+            return True if so == "raised" else z3.Not(self.has())
+        if so == "raised":
+            return False
+        return self.has()
+
+    def p_result(self, pre, out):
+        if out.raised:
+            return None
+        v = out.value
+        if not (isinstance(v, tuple) and len(v) == 3):
+            return False
+        if self.archive:
+            if v[2] is not None:
+                return False
+            data = self.fs.zip_data(self.p)
+        else:
+            if not isinstance(v[2], Closure):
+                return False
+            data = fs_bytes(self.p)
+        return z3.And(to_term(v[1], "str") == self.p, to_term(v[0], "str") == bytes_decode(data, self.encoding.t))
+
+    def p_nonempty(self, pre, out):
+        return None
+
+    posts = [("reads_only_the_joined_path", p_access), ("not_found_iff_missing", p_notfound), ("result", p_result)]
+
+    def concretize(self, model, pre, out):
+        pn = max(0, min(4, model_value(model, self.Pn)))
+        pieces = [z3str(model, z3.Select(self.P, i)) for i in range(pn)]
+        rejected = out is not None and split_outcome(out) == "raised"
+        return {"loader": "package", "platform": self.platform, "zip": bool(self.archive), "root": z3str(model, self.root.t) or "/pkg/templates",
+                "template": "../x" if rejected else "/".join(pieces), "exists": model_value(model, self.has()) is True}
+
+    def replay(self, w):
+        return replay_pkg(w)
+
+
+def replay_pkg(w):
+    platform, root, template = w.get("platform", "posix"), w["root"], w["template"]
+    M = PATHMOD[platform]
+    want_pieces = split_oracle(template, platform)
+    p = None if want_pieces is TemplateNotFound else M.normpath(posixpath.join(root, *want_pieces))
+    exists = bool(w.get("exists")) and p is not None
+    want = ("ok", "content of " + p) if exists else ("raise", "TemplateNotFound", template)
+    loader = object.__new__(L.PackageLoader)
+    loader._template_root, loader.encoding, loader.package_name, loader.package_path = root, "utf-8", "pkg", "templates"
+    zlog = []
+
+    class Z:
+        def get_data(self, path):
+            zlog.append(path)
+            if exists and path == p:
+                return ("content of " + path).encode("utf-8")
+            raise OSError(path)
+
+    loader._loader, loader._archive = Z(), ("/pkg.zip" if w.get("zip") else None)
+    with fake_fs(platform, [p] if exists else []) as fs:
+        got = run_native(lambda: loader.get_source(None, template))
+    fn_ok = True
+    if got[0] == "ok":
+        fn_ok = got[1][1] == p and ((got[1][2] is None) if w.get("zip") else callable(got[1][2]))
+        got = ("ok", got[1][0])
+    touched = zlog + [q for k, q in fs.log]
+    only_p = all(q == p for q in touched) and (p is not None or not touched)
+    contained = all(inside(platform, root, q) for q in touched)
+    bad = got != want or not only_p or not fn_ok or not contained
+    return (bad, f"PackageLoader(root={root!r}, zip={bool(w.get('zip'))}).get_source({template!r}) on {platform}, exists={exists}: "
+                 f"real={got!r} touched={touched!r}; spec={want!r} path={p!r}; contained={contained}")
+
+
+# ----------------------------------------------------------------------------------------------
+# containment lemma about the dependency spec of posixpath.join (induction on the number of pieces)
+# ----------------------------------------------------------------------------------------------
+
+def prove(name, hyps, goal, timeout=10000, witness=None):
+    """validity of hyps => goal: z3 briefly, then cvc5 (good at word equations), then z3 again"""
+    t0 = time.time()
+    for budget in (700, timeout):
+        s = z3.Solver()
+        s.set("timeout", budget)
+        s.add(*hyps)
+        s.add(z3.Not(goal))
+        r = s.check()
+        if r == z3.unsat:
+            return Res(name, "discharged", "z3", time.time() - t0, "", "vc")
+        if r == z3.sat:
+            return Res(name, "refuted", "z3", time.time() - t0, "lemma has a counter-model", "vc", witness(s.model()) if witness else None)
+        if budget == 700:
+            r2 = cvc5_check(s, timeout)
+            if r2 is not None:
+                return Res(name, "discharged", "cvc5", time.time() - t0, "", "vc")
+    return Res(name, "unknown", "z3", time.time() - t0, "solver: timeout", "vc")
+
+
+def rel_props(R, platform):
+    """R = the part of the joined path after `searchpath + "/"`: a non-empty relative path none of whose
+    components is "..", ".", or empty, free of the platform separator (so it cannot be absolute, re-root
+    on a drive-relative separator, or climb out)"""
+    sep, altsep = PLATFORMS[platform]
+    w = z3.Concat(SV("/"), R, SV("/"))
+    c = [R != SV(""), z3.Not(z3.PrefixOf(SV("/"), R)), z3.Not(z3.SuffixOf(SV("/"), R)), z3.Not(z3.Contains(w, SV("/../"))),
+         z3.Not(z3.Contains(w, SV("//"))), z3.Not(z3.Contains(w, SV("/./")))]
+    if sep != "/":
+        c.append(z3.Not(z3.Contains(R, SV(sep))))
+    return c
+
+
+def join_step(X, p):
+    """dependency spec of posixpath.join, one more component p (not starting with "/"):
+    X + p if X is empty or ends with "/", else X + "/" + p"""
+    return z3.If(z3.Or(X == SV(""), z3.SuffixOf(SV("/"), X)), z3.Concat(X, p), z3.Concat(X, SV("/"), p))
+
+
+def lemma_contained(task, tier, seed):
+    """For every base b and good pieces p0..pn-1 (n >= 1):  posixpath.join(b, p0, .., pn-1) = b + d + R with
+    d = "" if b is "" or ends with "/" else "/", and rel_props(R).  Induction on n; each case a string VC."""
+    pf = task.platform
+    b, R, p = z3.Strings("b R p")
+    d = z3.If(z3.Or(b == SV(""), z3.SuffixOf(SV("/"), b)), SV(""), SV("/"))
+    rs = []
+
+    def wit(m):
+        return {"lemma": "join", "platform": pf, "base": z3str(m, b), "rel": z3str(m, R), "piece": z3str(m, p)}
+
+    good = piece_good(p, pf)
+    # base case n = 1: join(b, p) = b + d + p and R = p
+    rs.append(prove(f"{task.name}.base.shape", [good], join_step(b, p) == z3.Concat(b, d, p), witness=wit))
+    for i, g in enumerate(rel_props(p, pf)):
+        rs.append(prove(f"{task.name}.base.rel[{i}]", [good], g, witness=wit))
+    # step: X = b + d + R with rel_props(R); join(X.., p) = b + d + (R + "/" + p) and rel_props(R + "/" + p)
+    X = z3.Concat(b, d, R)
+    hyp = rel_props(R, pf) + [good]
+    R2 = z3.Concat(R, SV("/"), p)
+    rs.append(prove(f"{task.name}.step.shape", hyp, join_step(X, p) == z3.Concat(b, d, R2), witness=wit))
+    for i, g in enumerate(rel_props(R2, pf)):
+        rs.append(prove(f"{task.name}.step.rel[{i}]", hyp, g, witness=wit))
+    return rs
+
+
+def replay_lemma(w):
+    """the lemma on the real posixpath.join for the counter-model's strings"""
+    if w.get("lemma") != "join":
+        return (None, "no native replay")
+    pf, base, rel, piece = w["platform"], w["base"], w["rel"], w["piece"]
+    if split_oracle(piece, pf) != [piece]:
+        return (False, "counter-model piece is not a good piece")
+    comps = [c for c in rel.split("/")] if rel else []
+    if any(split_oracle(c, pf) != [c] for c in comps):
+        comps = []
+    got = posixpath.join(base, *comps, piece)
+    ok = any(inside(pf, base or ".", got) for _ in (0,))
+    return (not ok, f"posixpath.join({base!r}, *{comps + [piece]!r}) = {got!r}; inside base: {ok}")
+
+
+class LemmaTask(FnTask):
+    def __init__(self, platform):
+        super().__init__("C28", f"C28.fs.join.contained[{platform}]", lemma_contained, "vc", replay_lemma)
+        self.platform = platform
+
+
+# ----------------------------------------------------------------------------------------------
+# ChoiceLoader
+# ----------------------------------------------------------------------------------------------
+
+class Choice(LVC):
+    """ChoiceLoader.get_source / load over any list of loaders."""
+    prop = "C28"
+    timeout_quick = 20000
+
+    def __init__(self, method):
+        self.method = method
+        self.target = f"jinja2.loaders:ChoiceLoader.{method}"
+        super().__init__("C28", f"C28.choice.{method}")
+
+    def configure(self, I):
+        install_unexpected(I)
+        self.oc, self.res = callee_model(self.method)
+        install_opaque(I, methods={self.method: abstract_loader_method(self.method, self.oc, self.res, name_index=1)})
+        c = self
+
+        def inv(ctx):
+            return [c.all_tnf_before(ctx.k)]
+
+        I.loops[(f"ChoiceLoader.{self.method}", 0)] = LoopSpec(inv, havoc=loop_assigned(self.target, kind="obj"), name="loaders_loop")
+
+    def oc_at(self, i):
+        return self.oc(z3.Select(self.LD, i), name_atom(self.template))
+
+    def all_tnf_before(self, k):
+        j = z3.Int(fresh_name("j"))
+        return z3.ForAll([j], z3.Implies(z3.And(0 <= j, j < k), is_tnf_family(self.oc_at(j))))
+
+    def setup(self, I, st):
+        self.LD = z3.Const("loaders", OArr)
+        self.n = z3.Int("n_loaders")
+        st.assume(self.n >= 0)
+        self.ld_list = st.alloc(HList(arr=self.LD, n=self.n, k="obj"), initial=True)
+        self.obj = A.obj(st, L.ChoiceLoader, "self", fields={"loaders": self.ld_list})
+        self.env = sym("environment", "obj")
+        self.template = sym("template", "obj")
+        self.globals = sym("globals", "obj")
+        args = [self.obj, self.env, self.template]
+        if self.method == "load":
+            args.append(self.globals)
+        return args, {}
+
+    def first_is(self, v):
+        i = z3.Int(fresh_name("i"))
+        return i, z3.And(0 <= i, i < self.n, self.all_tnf_before(i), self.oc_at(i) == v)
+
+    def p_outcome(self, pre, out):
+        """result of the first loader that does not raise TemplateNotFound; TemplateNotFound(name) iff all do;
+        any other exception of a loader passes through"""
+        if out.returned:
+            i, c = self.first_is(OUT_RETURN)
+            return z3.Exists([i], z3.And(c, to_term(out.value, "obj") == self.res(z3.Select(self.LD, i), name_atom(self.template))))
+        e = out.value
+        if getattr(e, "from_call", None):
+            if e.cls is not OtherError:
+                return False
+            i, c = self.first_is(OUT_OTHER)
+            return z3.Exists([i], c)
+        if not tnf_named(out, self.template):
+            return False
+        return self.all_tnf_before(self.n)
+
+    def p_calls(self, pre, out):
+        """loaders are called with (environment, name[, globals]) unchanged; nothing else is called"""
+        if unexpected(out):
+            return False
+        for e in A.calls(out, self.method):
+            want = [self.env, self.template] + ([self.globals] if self.method == "load" else [])
+            if len(e.args) != 1 + len(want) or e.kwargs or any(a is not b for a, b in zip(e.args[1:], want)):
+                return False
+        return True
+
+    posts = [("first_available_loader", p_outcome), ("arguments_passed_through", p_calls)]
+
+    def concretize(self, model, pre, out):
+        n = max(0, min(6, model_value(model, self.n)))
+        ids, outs = [], []
+        for i in range(n):
+            ids.append(str(model.eval(z3.Select(self.LD, i), model_completion=True)))
+            v = model_value(model, self.oc_at(z3.IntVal(i)))
+            outs.append(v if v in (0, 1, 2, 3) else OUT_OTHER)
+        return {"loader": "choice", "method": self.method, "ids": ids, "outcomes": outs}
+
+    def replay(self, w):
+        return replay_choice(w)
+
+
+def replay_choice(w):
+    objs = {}
+    loaders = [objs.setdefault(i, FakeLoader(i, o)) for i, o in zip(w["ids"], w["outcomes"])]
+    outs = [l.outcome for l in loaders]
+    want = ("raise", "TemplateNotFound", "NAME")
+    for l in loaders:
+        if l.outcome == OUT_RETURN:
+            want = ("ok", ("result", l.ident, w["method"], "NAME"))
+            break
+        if l.outcome == OUT_OTHER:
+            want = ("raise", "OtherError", str(l.ident))
+            break
+    cl = L.ChoiceLoader(loaders)
+    env, g = object(), {"g": 1}
+    got = run_native((lambda: cl.get_source(env, "NAME")) if w["method"] == "get_source" else (lambda: cl.load(env, "NAME", g)))
+    args_ok = all(c[1] == "NAME" and c[2] is env and (len(c) < 4 or c[3] is g) for l in loaders for c in l.calls)
+    return (got != want or not args_ok, f"ChoiceLoader(outcomes={outs}).{w['method']}: real={got!r} spec={want!r} args passed through={args_ok}")
+
+
+# ----------------------------------------------------------------------------------------------
+# PrefixLoader
+# ----------------------------------------------------------------------------------------------
+
+def split1_spec(I, st, args, kwargs, node, last=False):
+    """dependency spec of  s.split(d, 1): ValueError for an empty separator; [s] when d does not occur;
+    otherwise [s[:i], s[i+len(d):]] for the first occurrence i."""
+    if len(args) != 3 or args[2] != 1 or kwargs:
+        st.trace.append(Event("call", "unexpected:str.split", args, kwargs, None, lineno=getattr(node, "lineno", None)))
+        return [(st, st.alloc(HList(items=[fresh("x", "str"), fresh("y", "str")])))]
+    s, d = to_term(args[0], "str"), to_term(args[1], "str")
+    out = []
+    for s1, empty in I.fork_bool(st, d == SV("")):
+        if empty:
+            e = Exc(ValueError, ("empty separator",), origin=getattr(node, "lineno", None))
+            out.append((s1, Raised(e)))
+            continue
+        for s2, has in I.fork_bool(s1, z3.Contains(s, d)):
+            if not has:
+                out.append((s2, s2.alloc(HList(items=[args[0]]))))
+                continue
+            i = z3.LastIndexOf(s, d) if last else z3.IndexOf(s, d, 0)
+            before = Sym(z3.SubString(s, 0, i), "str")
+            after = Sym(z3.SubString(s, i + z3.Length(d), z3.Length(s) - i - z3.Length(d)), "str")
+            out.append((s2, s2.alloc(HList(items=[before, after]))))
+    return out
+
+
+class Prefix(LVC):
+    """PrefixLoader.get_loader / get_source / load for any mapping, delimiter and name."""
+    prop = "C28"
+    timeout_quick = 20000
+
+    def __init__(self, method):
+        self.method = method
+        self.target = f"jinja2.loaders:PrefixLoader.{method}"
+        super().__init__("C28", f"C28.prefix.{method}")
+
+    def configure(self, I):
+        install_unexpected(I)
+        I.specs["str.split"] = split1_spec
+        I.specs["str.rsplit"] = lambda I_, st, args, kwargs, node: split1_spec(I_, st, args, kwargs, node, last=True)
+        I.inline.add("jinja2.loaders:PrefixLoader.get_loader")
+        if self.method != "get_loader":
+            self.oc, self.res = callee_model(self.method)
+            install_opaque(I, methods={self.method: abstract_loader_method(self.method, self.oc, self.res, name_index=1)})
+
+    def setup(self, I, st):
+        self.mapping = A.adict(st, "mapping", "str", "obj")
+        h = st.get(self.mapping)
+        self.dom, self.val = h.dom, h.val
+        self.delim = sym("delimiter", "str")
+        self.obj = A.obj(st, L.PrefixLoader, "self", fields={"mapping": self.mapping, "delimiter": self.delim})
+        self.env = sym("environment", "obj")
+        self.template = sym("template", "str")
+        self.globals = sym("globals", "obj")
+        t, d = self.template.t, self.delim.t
+        i = z3.IndexOf(t, d, 0)
+        self.before = z3.SubString(t, 0, i)
+        self.after = z3.SubString(t, i + z3.Length(d), z3.Length(t) - i - z3.Length(d))
+        self.found = z3.And(d != SV(""), z3.Contains(t, d), z3.Select(self.dom, self.before))
+        self.inner = z3.Select(self.val, self.before)
+        if self.method == "get_loader":
+            return [self.obj, self.template], {}
+        if self.method == "get_source":
+            return [self.obj, self.env, self.template], {}
+        return [self.obj, self.env, self.template, self.globals], {}
+
+    def mapping_unchanged(self, out):
+        h = out.st.get(self.mapping)
+        return h.dom is self.dom and h.val is self.val
+
+    def p_get_loader(self, pre, out):
+        """(mapping[prefix], rest) for the split at the FIRST delimiter; TemplateNotFound(name) when the delimiter
+        is missing or the prefix unknown"""
+        if self.method != "get_loader":
+            return None
+        if not self.mapping_unchanged(out) or unexpected(out):
+            return False
+        if out.raised:
+            if not tnf_named(out, self.template) or out.value.cause is None:
+                return False
+            return z3.Not(self.found)
+        v = out.value
+        if not (isinstance(v, tuple) and len(v) == 2):
+            return False
+        return z3.And(self.found, to_term(v[0], "obj") == self.inner, to_term(v[1], "str") == self.after)
+
+    def p_delegate(self, pre, out):
+        """found: the inner loader is called once with (environment, rest[, globals]); its result is returned, its
+        TemplateNotFound is re-raised under the FULL name, any other exception passes through.
+        not found: TemplateNotFound(full name) without calling any loader."""
+        if self.method == "get_loader":
+            return None
+        if not self.mapping_unchanged(out) or unexpected(out):
+            return False
+        calls = A.calls(out, self.method)
+        if not calls:
+            if not tnf_named(out, self.template):
+                return False
+            return z3.Not(self.found)
+        if len(calls) != 1:
+            return False
+        ev = calls[0]
+        want_rest = [self.env] + ([None, self.globals] if self.method == "load" else [None])
+        if len(ev.args) != 1 + len(want_rest) or ev.kwargs:
+            return False
+        if ev.args[1] is not self.env or (self.method == "load" and ev.args[3] is not self.globals):
+            return False
+        base = z3.And(self.found, to_term(ev.args[0], "obj") == self.inner, to_term(ev.args[2], "str") == self.after)
+        oc = self.oc(self.inner, name_atom(ev.args[2]))
+        if out.returned:
+            return z3.And(base, oc == OUT_RETURN, to_term(out.value, "obj") == to_term(ev.result, "obj")) if out.value is ev.result else False
+        e = out.value
+        if getattr(e, "from_call", None):
+            return z3.And(base, oc == OUT_OTHER) if e.cls is OtherError else False
+        if not tnf_named(out, self.template) or out.value.cause is not ev.result:
+            return False
+        return z3.And(base, is_tnf_family(oc))
+
+    posts = [("split_at_first_delimiter", p_get_loader), ("delegates_and_renames", p_delegate)]
+
+    def concretize(self, model, pre, out):
+        t, d = z3str(model, self.template.t), z3str(model, self.delim.t)
+        known = model_value(model, z3.Select(self.dom, self.before)) is True
+        oc = 0
+        if self.method != "get_loader":
+            v = model_value(model, self.oc(self.inner, name_atom(Sym(self.after, "str"))))
+            oc = v if v in (0, 1, 2, 3) else OUT_OTHER
+        return {"loader": "prefix", "method": self.method, "template": t, "delimiter": d, "prefix_known": known, "outcome": oc}
+
+    def replay(self, w):
+        return replay_prefix(w)
+
+
+def replay_prefix(w):
+    t, d, method = w["template"], w["delimiter"], w["method"]
+    before, found_d, after = t.partition(d) if d else (t, "", "")
+    inner = FakeLoader("inner", w.get("outcome", 0))
+    decoy = FakeLoader("decoy", OUT_RETURN)
+    mapping = {"<decoy>" + t: decoy}
+    if w.get("prefix_known") and found_d:
+        mapping[before] = inner
+    found = bool(found_d) and before in mapping
+    pl = L.PrefixLoader(mapping, d)
+    env, g = object(), {"g": 1}
+    if method == "get_loader":
+        want = ("ok", (mapping[before], after)) if found else ("raise", "TemplateNotFound", t)
+        got = run_native(lambda: pl.get_loader(t))
+        return (got != want, f"PrefixLoader(delimiter={d!r}).get_loader({t!r}), known prefixes={[k for k in mapping if k != '<decoy>' + t]!r}: real={got!r} spec={want!r}")
+    if not found:
+        want, want_calls = ("raise", "TemplateNotFound", t), []
+    else:
+        want_calls = [(method, after, env) + ((g,) if method == "load" else ())]
+        o = mapping[before].outcome
+        want = {OUT_RETURN: ("ok", ("result", mapping[before].ident, method, after)), OUT_TNF: ("raise", "TemplateNotFound", t),
+                OUT_TNFS: ("raise", "TemplateNotFound", t), OUT_OTHER: ("raise", "OtherError", str(mapping[before].ident))}[o]
+    got = run_native((lambda: pl.get_source(env, t)) if method == "get_source" else (lambda: pl.load(env, t, g)))
+    calls = inner.calls + decoy.calls
+    return (got != want or calls != want_calls, f"PrefixLoader(delimiter={d!r}).{method}({t!r}), prefix known={found}, inner outcome={w.get('outcome')}: "
+                                                f"real={got!r} calls={calls!r}; spec={want!r} calls={want_calls!r}")
+
+
+# ----------------------------------------------------------------------------------------------
+# bounded stand-ins: the dependency specs against the real library; the real loaders on a real directory tree
+# ----------------------------------------------------------------------------------------------
+
+def ref_posix_join(base, comps):
+    """the dependency spec of posixpath.join used above (components without a leading "/")"""
+    x = base
+    for p in comps:
+        x = x + p if (x == "" or x.endswith("/")) else x + "/" + p
+    return x
+
+
+GOOD_PIECES = {"posix": ["a", "b.html", "..a", "...", "C:", "C:x", "a\\b", "\\", "~", " "],
+               "nt": ["a", "b.html", "..a", "...", "C:", "C:x", "~", " ", "aux", "a:b"]}
+BASES = ["", "/", "t", "t/", "/srv/t", "/srv/t/", "./t", "../t", "C:\\t", "C:/t/", "//h/s/t"]
+
+
+def bounded_deps(task, tier, seed):
+    """dependency specs vs the real library functions on small inputs"""
+    rs, n = [], 0
+    t0 = time.time()
+    depth = 3 if tier == "quick" else 4
+    # posixpath.join recursion
+    for pf in ("posix", "nt"):
+        for base in BASES:
+            for k in range(0, depth + 1):
+                for comps in itertools.product(GOOD_PIECES[pf], repeat=k):
+                    n += 1
+                    if posixpath.join(base, *comps) != ref_posix_join(base, comps):
+                        rs.append(Res(f"{task.name}.posixpath_join", "refuted", "bounded", 0, f"posixpath.join({base!r}, *{comps!r})", "bounded",
+                                      {"dep": "join", "base": base, "comps": list(comps)}))
+                        return rs
+    # str.split("/"): N >= 1, no "/" in a segment, "/".join inverse; split(d, 1): first occurrence
+    alpha = ["a", ".", "/", "\\", ":"]
+    for k in range(0, 6 if tier == "quick" else 7):
+        for cs in itertools.product(alpha, repeat=k):
+            s = "".join(cs)
+            n += 1
+            segs = s.split("/")
+            if not (len(segs) >= 1 and all("/" not in x for x in segs) and "/".join(segs) == s):
+                rs.append(Res(f"{task.name}.str_split", "refuted", "bounded", 0, f"{s!r}.split('/')", "bounded", {"dep": "split", "s": s}))
+                return rs
+            for d in ("/", ":", "a.", "//"):
+                got = s.split(d, 1)
+                i = s.find(d)
+                want = [s] if i < 0 else [s[:i], s[i + len(d):]]
+                if got != want:
+                    rs.append(Res(f"{task.name}.str_split1", "refuted", "bounded", 0, f"{s!r}.split({d!r}, 1)", "bounded", {"dep": "split", "s": s}))
+                    return rs
+    task.stats = {"cases": n}
+    rs.append(Res(f"{task.name}.all", "bounded-ok", "bounded", time.time() - t0, f"{n} inputs agree with the dependency specs", "bounded"))
+    return rs
+
+
+def bounded_normpath(task, tier, seed):
+    """PackageLoader: normpath(posixpath.join(root, *pieces)) stays lexically inside root, for the platform's own
+    normpath, small roots and up to 3 (4) good pieces: it equals normpath(root) + sep + sep.join(pieces)."""
+    rs, n = [], 0
+    t0 = time.time()
+    depth = 3 if tier == "quick" else 4
+    roots = {"posix": ["/pkg/templates", "/pkg/templates/", "/pkg/./t", "/pkg/x/../t", "pkg/t", "/"],
+             "nt": ["C:\\pkg\\templates", "C:\\pkg\\templates\\", "C:/pkg/t", "C:\\pkg\\x\\..\\t", "pkg\\t", "\\\\host\\share\\t"]}
+    for pf in ("posix", "nt"):
+        M = PATHMOD[pf]
+        for root in roots[pf]:
+            nr = M.normpath(root)
+            for k in range(1, depth + 1):
+                for comps in itertools.product(GOOD_PIECES[pf], repeat=k):
+                    n += 1
+                    got = M.normpath(posixpath.join(root, *comps))
+                    want = (nr if nr.endswith(M.sep) else nr + M.sep) + M.sep.join(comps)
+                    if got != want or not inside(pf, root, got):
+                        rs.append(Res(f"{task.name}.contained", "refuted", "bounded", 0, f"{pf} normpath(join({root!r}, *{comps!r})) = {got!r}, expected {want!r}",
+                                      "bounded", {"dep": "normpath", "platform": pf, "root": root, "comps": list(comps)}))
+                        return rs
+    task.stats = {"cases": n}
+    rs.append(Res(f"{task.name}.all", "bounded-ok", "bounded", time.time() - t0, f"{n} (root, pieces) combinations stay inside the root", "bounded"))
+    return rs
+
+
+TREE_FRAGMENTS = ["..", ".", "", "a", "sub", "secret.txt", "t.html", "\\..", "..\\secret.txt", "C:", "~"]
+
+
+def bounded_tree(task, tier, seed):
+    """The real FileSystemLoader / PackageLoader / composed loaders on a real sandbox directory tree with sentinel
+    files outside the search paths; every open() is observed with an audit hook; all names of up to 3 (4) segments
+    over TREE_FRAGMENTS, plus absolute variants."""
+    import shutil
+    import sys
+    import tempfile
+    depth = 3 if tier == "quick" else 4
+    t0 = time.time()
+    top = os.path.realpath(tempfile.mkdtemp(prefix="c28tree"))
+    rs, n = [], 0
+    try:
+        s1, s2 = os.path.join(top, "search1"), os.path.join(top, "search2")
+        for d in (s1, s2, os.path.join(s1, "sub"), os.path.join(s2, "sub"), os.path.join(s1, "a")):
+            os.makedirs(d, exist_ok=True)
+        files = {os.path.join(top, "secret.txt"): "SECRET", os.path.join(s1, "t.html"): "s1/t", os.path.join(s2, "t.html"): "s2/t",
+                 os.path.join(s2, "sub", "t.html"): "s2/sub/t", os.path.join(s1, "sub", "secret.txt"): "s1/sub/secret",
+                 os.path.join(s1, "a", "t.html"): "s1/a/t", os.path.join(s2, "secret.txt"): "s2/secret"}
+        for p, c in files.items():
+            with open(p, "w") as f:
+                f.write(c)
+        opened = []
+        active = [False]
+
+        def hook(ev, args):
+            if active[0] and ev == "open" and isinstance(args[0], str):
+                opened.append(args[0])
+
+        sys.addaudithook(hook)
+        fsl = L.FileSystemLoader([s1, s2])
+        pkg = object.__new__(L.PackageLoader)
+        pkg._template_root, pkg._archive, pkg._loader, pkg.encoding, pkg.package_name, pkg.package_path = s2, None, None, "utf-8", "p", "t"
+        composed = L.ChoiceLoader([L.PrefixLoader({"x": L.FileSystemLoader(s1)}), L.FileSystemLoader(s2)])
+
+        def names():
+            for k in range(1, depth + 1):
+                for segs in itertools.product(TREE_FRAGMENTS, repeat=k):
+                    yield "/".join(segs)
+            for extra in ("/" + top + "/secret.txt", top + "/secret.txt", "//secret.txt", "x/../secret.txt", "x/t.html", "x/a/t.html", "x//t.html"):
+                yield extra
+
+        def spec(name, roots):
+            pieces = split_oracle(name, "posix")
+            if pieces is TemplateNotFound or not pieces:
+                return None
+            for r in roots:
+                p = os.path.join(r, *pieces)
+                if os.path.isfile(p):
+                    return p
+            return None
+
+        for name in names():
+            for label, loader, roots in (("fs", fsl, [s1, s2]), ("package", pkg, [s2])):
+                n += 1
+                del opened[:]
+                active[0] = True
+                try:
+                    got = run_native(lambda: loader.get_source(None, name))
+                finally:
+                    active[0] = False
+                want_path = spec(name, roots)
+                want = ("ok", files[want_path]) if want_path else ("raise", "TemplateNotFound", name)
+                g = ("ok", got[1][0]) if got[0] == "ok" else got
+                outside = [p for p in opened if not any(os.path.realpath(p).startswith(r + os.sep) for r in roots)]
+                if g != want or outside or opened != ([want_path] if want_path else []):
+                    rs.append(Res(f"{task.name}.{label}", "refuted", "bounded", 0, f"{label} loader, name {name!r}: real={g!r} opened={opened!r}; spec={want!r}",
+                                  "bounded", {"dep": "tree", "name": name}))
+                    return rs
+            # composition: prefix "x" -> search1, else search2
+            n += 1
+            del opened[:]
+            active[0] = True
+            try:
+                got = run_native(lambda: composed.get_source(None, name))
+            finally:
+                active[0] = False
+            wp = None
+            if name.startswith("x/"):
+                wp = spec(name[2:], [s1])
+            if wp is None:
+                wp = spec(name, [s2])
+            want = ("ok", files[wp]) if wp else ("raise", "TemplateNotFound", name)
+            g = ("ok", got[1][0]) if got[0] == "ok" else got
+            outside = [p for p in opened if not any(os.path.realpath(p).startswith(r + os.sep) for r in (s1, s2))]
+            if g != want or outside:
+                rs.append(Res(f"{task.name}.composed", "refuted", "bounded", 0, f"Choice[Prefix{{x: fs(search1)}}, fs(search2)], name {name!r}: real={g!r} opened={opened!r}; spec={want!r}",
+                              "bounded", {"dep": "tree", "name": name}))
+                return rs
+    finally:
+        shutil.rmtree(top, ignore_errors=True)
+    task.stats = {"cases": n}
+    rs.append(Res(f"{task.name}.all", "bounded-ok", "bounded", time.time() - t0, f"{n} (loader, name) runs on a real directory tree: nothing outside the search paths was opened", "bounded"))
+    return rs
+
+
+def replay_bounded(w):
+    """bounded stand-ins find their counterexamples by running the real code; re-run the named case"""
+    if w.get("dep") == "join":
+        got = posixpath.join(w["base"], *w["comps"])
+        want = ref_posix_join(w["base"], w["comps"])
+        return (got != want, f"posixpath.join: real={got!r} spec={want!r}")
+    if w.get("dep") == "normpath":
+        M = PATHMOD[w["platform"]]
+        got = M.normpath(posixpath.join(w["root"], *w["comps"]))
+        return (not inside(w["platform"], w["root"], got), f"normpath(join) = {got!r}")
+    if w.get("dep") == "tree":
+        t = FnTask("C28", "replay", bounded_tree, "bounded")
+        rs = bounded_tree(t, "quick", 0)
+        bad = [r for r in rs if r.status == "refuted"]
+        return (bool(bad), bad[0].detail if bad else "sandbox run is clean")
+    return (None, "no native replay")
+
+
+def make_bounded(name, fn, bound):
+    t = FnTask("C28", name, fn, "bounded", replay_bounded)
+    t.bound_text = bound
+    return t
+
+
+TASKS = [
+    Split("posix"), Split("nt"),
+    FSGetSource("posix"), FSGetSource("nt"),
+    LemmaTask("posix"), LemmaTask("nt"),
+    PkgGetSource("posix", False), PkgGetSource("nt", False), PkgGetSource("posix", True), PkgGetSource("nt", True),
+    Choice("get_source"), Choice("load"),
+    Prefix("get_loader"), Prefix("get_source"), Prefix("load"),
+    make_bounded("C28.bounded.dependency_specs", bounded_deps,
+                 "posixpath.join: 11 bases x up to 3 (thorough 4) pieces from 10 fragments per platform; str.split: all strings of length <= 5 (6) over {a . / \\ :}"),
+    make_bounded("C28.bounded.package_normpath", bounded_normpath,
+                 "6 roots per platform x 1..3 (thorough 4) good pieces from 10 fragments, posixpath.normpath and ntpath.normpath"),
+    make_bounded("C28.bounded.sandbox_tree", bounded_tree,
+                 "all names of 1..3 (thorough 4) segments over 11 fragments ('..', '.', '', backslash forms, drive letter, ...) plus absolute names, "
+                 "on FileSystemLoader, PackageLoader and Choice[Prefix, FileSystem] over a real directory tree with sentinel files outside"),
+]
 
 META = {
     "level": "proof",
-    "explanation": "",
-    "assumptions": [],
-    "trusted_base": [],
+    "explanation": "split_template_path is proved for all strings and both platform separator settings with a loop invariant over the '/'-segments "
+                   "(raises TemplateNotFound iff a segment is '..' or contains a separator; otherwise returns exactly the non-empty, non-'.' segments). "
+                   "FileSystemLoader.get_source and PackageLoader.get_source are executed symbolically over an abstract file system: the only path "
+                   "probed/opened is posixpath.join(search path, *pieces) for the first search path that has it, TemplateNotFound iff none has it. "
+                   "The lexical containment of that path (search path is a proper directory prefix, no '..'/'.'/empty component, no platform separator) "
+                   "is proved by induction on the number of pieces from the dependency spec of posixpath.join (string VCs, cvc5). ChoiceLoader and "
+                   "PrefixLoader are proved for any list/mapping of abstract loaders (first loader not raising TemplateNotFound; only that class is "
+                   "caught; split at the first delimiter; inner TemplateNotFound re-raised under the full name). Bounded stand-ins compare the "
+                   "dependency specs with the real library and run the real loaders on a sandbox directory tree.",
+    "assumptions": [
+        "FS-STABLE: the file system does not change during one get_source call (isfile/getmtime are functions of the path; open of an existing regular file succeeds)",
+        "search paths of a FileSystemLoader are directories, not regular files",
+        "lexical containment only: symlinks inside the search directories are outside the statement's reach",
+        "abstract inner loaders are deterministic during one call and raise TemplateNotFound, TemplatesNotFound or some other Exception",
+        "A-EQ template names / loader objects compare by identity of abstract atoms",
+    ],
+    "trusted_base": ["z3 5.1 / cvc5 1.0.3", "pyvc symbolic executor", "dependency specs: str.split, posixpath.join, os.path.normpath (checked on small inputs by bounded stand-ins), "
+                     "os.path.isfile/getmtime, open/read, zipimporter.get_data"],
 }
